@@ -615,6 +615,9 @@ def wrapper_sizes(repo, rep, kernels_lead):
 
 
 def run(repo, rep, tier):
+    rep.rule("R-C03-9", "(shared with C01) the wind-sea classification of PTM1 / PTM2 compares the wind with the celerity AT THE GIVEN DEPTH: the wavenumber polynomial behind it sums every coefficient with its own power")
+    from .shared import wavenumber_polynomial
+    wavenumber_polynomial(repo, rep, "R-C03-9")
     rep.rule("R-C03-1", "each watershed part np.where(map == label, spectrum, 0) is consumed exactly once on every path of the "
                         "loop body: added whole to one output, or as a complementary pair of masked halves")
     rep.rule("R-C03-2", "partition arrays hold only original energy or zero: value operand is the unsmoothed spectrum, the map "
